@@ -172,7 +172,8 @@ func universes(thorough bool) []*universe {
 		{ // P1: selectors and an unprioritised pinned pool
 			mkPool("a-unpinned", []string{"10.0.1.0/30"}, nil),
 			mkPool("e-web-prio0", []string{"10.0.5.0/31"}, func(p *metallbv1beta1.IPAddressPool) {
-				p.Spec.AllocateTo = &metallbv1beta1.ServiceAllocation{ServiceSelectors: []metav1.LabelSelector{lsel("app", "web")}}
+				// two selectors: a service matching either of them is admitted
+				p.Spec.AllocateTo = &metallbv1beta1.ServiceAllocation{ServiceSelectors: []metav1.LabelSelector{lsel("app", "web"), lsel("tier", "edge")}}
 			}),
 			mkPool("g-teamx-prio20", []string{"10.0.7.0/31"}, func(p *metallbv1beta1.IPAddressPool) {
 				p.Spec.AllocateTo = &metallbv1beta1.ServiceAllocation{Priority: 20, NamespaceSelectors: []metav1.LabelSelector{lsel("team", "x")}}
@@ -217,6 +218,8 @@ func universes(thorough bool) []*universe {
 		{"ip-invalid", mkSvc(lbIP("not-an-ip"))},
 		{"ip-outside", mkSvc(lbIP("172.16.0.1"))},
 		{"pool=g-web", mkSvc(svcLabels(map[string]string{"app": "web"}), annot(AnnotationAddressPool, "g-nobody"))},
+		// asks for the pool with two service selectors and matches one of them
+		{"pool=e-web", mkSvc(svcLabels(map[string]string{"app": "web"}), annot(AnnotationAddressPool, "e-web-prio0"))},
 	}
 	polSlotVs := map[int][]int{1: {0, 1, 3, 4, 8, 9, 15}, 2: {0, 3}}
 	if thorough {
